@@ -13,6 +13,9 @@ Oracle: reference model written from the property statement (retryable = connect
 else surfaces at once as a Rally error naming the cause).
 """
 import itertools
+import json
+import os
+import sys
 import logging
 import random
 import warnings
@@ -253,7 +256,78 @@ def _cause_tokens(case, index, end):
     return where
 
 
+_FRESH_SCRIPT = r"""
+import json, sys
+repo, outcomes = sys.argv[1], json.loads(sys.argv[2])
+sys.path.insert(0, repo)
+import elastic_transport, elasticsearch   # (what esrally.metrics itself imports at module level; NOT elasticsearch.helpers)
+import esrally.time
+from esrally import exceptions, metrics
+sleeps = []
+esrally.time.sleep = lambda s: sleeps.append(s)
+def meta(status):
+    return elastic_transport.ApiResponseMeta(status=status, http_version="1.1", headers=elastic_transport.HttpHeaders(), duration=0.0,
+                                             node=elastic_transport.NodeConfig("http", "sim", 9200))
+calls = []
+def target():
+    o = outcomes[len(calls)] if len(calls) < len(outcomes) else "ok"
+    calls.append(o)
+    if o == "ok":
+        return "result"
+    if o.startswith("http:"):
+        st = int(o[5:])
+        raise elasticsearch.ApiError(message="sim", meta=meta(st), body={"error": "sim"})
+    if o == "transport_other":
+        raise elasticsearch.SerializationError("sim")
+    raise AssertionError(o)
+class Pool:
+    def get(self):
+        return elastic_transport.NodeConfig("http", "sim", 9200)
+class Transport:
+    node_pool = Pool()
+class Client:
+    transport = Transport()
+out = {"helpers_loaded_before": "elasticsearch.helpers" in sys.modules}
+try:
+    out["returned"] = metrics.EsClient(Client()).guarded(target)
+except exceptions.RallyError as e:
+    out["rally_error"] = str(e)[:200]
+except BaseException as e:
+    out["other_error"] = type(e).__name__ + ": " + str(e)[:200]
+out["calls"] = len(calls)
+out["sleeps"] = len(sleeps)
+print(json.dumps(out))
+"""
+
+
+def _run_fresh_process(case, obs):
+    """
+    The first calls of a process (opening the store: template_exists, put_template, exists, create_index ...) happen before anything has
+    written a bulk, i.e. in an interpreter that has imported esrally.metrics and nothing else: the same fault classes, the same handling.
+    """
+    import subprocess  # pylint: disable=import-outside-toplevel
+
+    repo = os.path.dirname(os.path.dirname(os.path.abspath(metrics.__file__)))
+    p = subprocess.run([sys.executable, "-c", _FRESH_SCRIPT, repo, json.dumps(case["outcomes"])], capture_output=True, text=True, timeout=120,
+                       env=dict(os.environ, PYTHONDONTWRITEBYTECODE="1"), check=False)
+    if p.returncode != 0 or not p.stdout.strip():
+        raise core.HarnessError(f"fresh interpreter failed: {p.stderr[-600:]}")
+    out = json.loads(p.stdout.strip().splitlines()[-1])
+    want_calls = len(case["outcomes"]) + 1 if case["expect"] == "ok" else len(case["outcomes"])
+    where = f"fresh interpreter, outcomes {case['outcomes']}: {out}"
+    obs.check("other_error" not in out, "fresh-process/unexpected-exception", where)
+    if case["expect"] == "ok":
+        obs.check(out.get("returned") == "result" and out["calls"] == want_calls and out["sleeps"] == want_calls - 1, "fresh-process/not-retried", where)
+    else:
+        obs.check("rally_error" in out and out["calls"] == want_calls, "fresh-process/not-a-rally-error", where)
+    obs.cls("fresh-interpreter")
+    obs.mark_nontrivial(True)
+
+
 def run_case(case, obs):
+    if case.get("fresh_process"):
+        _run_fresh_process(case, obs)
+        return
     op = case["op"]
     outcomes = case["outcomes"]
     es = _STATE["es"]
@@ -503,6 +577,8 @@ def strategy(tier, known):
 
 # ------------------------------------------------------------------------------------------------ exhaustive sub-domain (class patterns)
 def enumerate_cases(tier):
+    for outcomes, expect in ((["http:503"], "ok"), (["http:429", "http:504"], "ok"), (["http:404"], "error"), (["transport_other"], "error")):
+        yield {"fresh_process": True, "op": "exists", "outcomes": outcomes, "expect": expect}
     for oi, op in enumerate(OPS):
         n_items = 1 if op == "index" else 2
         retry = list(RETRYABLE)
